@@ -425,7 +425,7 @@ def mkpath(ops, pnum):
     return p
 
 
-FAMILIES = ("on-own", "inside", "on-higher", "on-cap", "to-last")
+FAMILIES = ("on-own", "inside", "on-higher", "on-cap", "to-last", "over-cap")
 BOUNDARY = ("on-own", "on-higher", "on-cap", "to-last")
 
 
@@ -446,6 +446,10 @@ def initial_orders(cfg, family="on-own"):
       on-cap     max == interface_cap where the cap is ≥ λ_i (else λ_i)
       to-last    the [i+] path runs L→R and ends exactly ON the last interface
       inside     max == λ_i + ½, [0-] turns strictly inside
+      over-cap   the [i+] path goes half a unit ABOVE the cap (where the cap is below the last interface; else to
+                 half a unit below the last interface), comes back down to λ_i (for [0+]: to the first frame above λ0), goes up again and returns to the
+                 left: with a wire-fencing ensemble [λ_i, cap) that is an L→R piece, an R→R piece (not counted) and an
+                 R→L piece, so the weights over [λ_i, cap) and over [λ_i, λ_N) differ
     Plus paths climb in unit steps (interfaces and cap are integers, so every level on the way is visited)."""
     sim = cfg["simulation"]
     intf = [int(x) for x in sim["interfaces"]]
@@ -465,6 +469,19 @@ def initial_orders(cfg, family="on-own"):
         if family == "to-last":
             out.append(climb(l0 - 1, intf[-1], back=False))
             continue
+        if family == "over-cap":
+            last = intf[-1]
+            top = cap if (cap is not None and cap < last) else last
+            peak = max(top + 0.5, float(li)) if top < last else last - 0.5
+            if not peak < last:
+                peak = last - 0.5
+            rise = climb(l0 - 1, peak, back=False)   # l0-1 … li … peak
+            # the turning point in the middle: λ_i, for [0+] the first frame above λ0 (the path must not come
+            # back to λ0 before it ends)
+            k = rise.index(float(li)) + (1 if i == 0 else 0)
+            # up to the peak, down to the turning point, up to the peak again, down to l0-1
+            out.append(rise + rise[k:-1][::-1] + rise[k + 1:] + rise[-2::-1])
+            continue
         if family == "inside":
             peak = li + 0.5
         elif family == "on-higher":
@@ -479,6 +496,67 @@ def initial_orders(cfg, family="on-own"):
 
 def initial_paths(cfg, family="on-own"):
     return [mkpath(ops, k) for k, ops in enumerate(initial_orders(cfg, family))]
+
+
+def spec_wf_weight(ops, left, right):
+    """the property's wire-fencing weight, stated without the scan: the number of frames inside [left, right) whose
+    maximal run of inside frames is bounded by an outside frame on BOTH sides, the two bounding frames not both
+    being ≥ right (sub-paths L→L, L→R, R→L count; R→R and the open ends of the path do not).  Independent of
+    wirefence_weight_and_pick (no key_l/key_r state machine)."""
+    inside = [left <= x < right for x in ops]
+    total = 0
+    k = 0
+    n = len(ops)
+    while k < n:
+        if not inside[k]:
+            k += 1
+            continue
+        j = k
+        while j < n and inside[j]:
+            j += 1
+        if k > 0 and j < n and not (ops[k - 1] >= right and ops[j] >= right):
+            total += j - k
+        k = j
+    return total
+
+
+def spec_weight_row(cfg, ops):
+    """the weight vector the property demands for a [i+] initial path under the CONFIGURED interfaces, moves and cap
+    (`interface_cap` present in the configuration — 0.0, 0 and a cap equal to an interface included — is THE cap;
+    absent ⇒ the last interface): entry j belongs to ensemble [j+] = moves[j+1];
+      sh: 1 iff λ_j ≤ max(order)              (non-strict, as Path.check_interfaces)
+      wf: frames on valid sub-paths of [λ_j, cap)  × 2 unless the path starts and ends on the same side of (λ_0, cap)
+    and a final 0 for the ghost ensemble."""
+    sim = cfg["simulation"]
+    intf = sim["interfaces"]
+    moves = sim["shooting_moves"]
+    tis = sim["tis_set"]
+    right = tis["interface_cap"] if "interface_cap" in tis else intf[-1]
+    pmax = max(ops)
+    side = lambda x: "L" if x <= intf[0] else ("R" if x >= right else None)  # noqa: E731
+    s, e = side(ops[0]), side(ops[-1])
+    same = s is not None and s == e
+    row = []
+    for j in range(len(intf) - 1):
+        if moves[j + 1] == "wf":
+            w = float(spec_wf_weight(ops, intf[j], right))
+            row.append(w if same else 2.0 * w)
+        else:
+            row.append(1.0 if intf[j] <= pmax else 0.0)
+    row.append(0.0)
+    return tuple(row)
+
+
+def configured_cap(cfg):
+    return cfg["simulation"]["tis_set"].get("interface_cap", None)
+
+
+def same_cap(got, want):
+    """the cap the state / md_items carry is the configured one: None iff absent, else the same number (0.0 is a
+    number, not 'absent'; a bool is not a number)"""
+    if want is None:
+        return got is None
+    return got is not None and not isinstance(got, bool) and got == want
 
 
 def weights_spec_violations(cfg, orders, rows):
@@ -499,6 +577,31 @@ def weights_spec_violations(cfg, orders, rows):
                 bad.append((i, f"entry {j} is {float(w[j])} with λ_{j}={intf[j]} and max={max(ops)}"))
         if float(w[i]) == 0.0:
             bad.append((i, "own weight 0"))
+        want = spec_weight_row(cfg, ops)
+        if tuple(float(x) for x in w) != want:
+            bad.append((i, f"weights {tuple(float(x) for x in w)} ≠ {want} demanded for interfaces {list(intf)}, moves "
+                           f"{list(moves)}, interface_cap {configured_cap(cfg)!r}"))
+    return bad
+
+
+def state_weight_violations(cfg, orders, matrix):
+    """the W matrix of the real state right after load_paths: row 0 = [0-] path = (1, 0, …, 0); row i+1 = (0,) + the
+    demanded weight vector of the [i+] path; ghost row all 0"""
+    n = len(cfg["simulation"]["interfaces"])
+    bad = []
+    try:
+        m = [[float(x) for x in r] for r in matrix]
+    except Exception as e:  # noqa: BLE001
+        return [(-1, "state matrix unreadable: " + err_kind(e))]
+    if len(m) != n + 1 or any(len(r) != n + 1 for r in m):
+        return [(-1, f"state matrix has shape {len(m)}x{len(m[0]) if m else 0}, expected {n + 1}x{n + 1}")]
+    want = [[1.0] + [0.0] * n]
+    want += [[0.0] + list(spec_weight_row(cfg, orders[i + 1])) for i in range(n - 1)]
+    want += [[0.0] * (n + 1)]
+    for i, (g, w) in enumerate(zip(m, want)):
+        if g != w:
+            bad.append((i - 1, f"row {i} of the state's W matrix is {g}, demanded {w} "
+                               f"(interface_cap {configured_cap(cfg)!r})"))
     return bad
 
 
@@ -511,7 +614,7 @@ def cv_line(cfg, ops):
     return f"cv {'-' if cap is None else d(cap)} {lst([d(x) for x in sim['interfaces']])} {lst(mv)} {lst([d(x) for x in ops])}"
 
 
-def initialise(cfg, family="on-own"):
+def initialise(cfg, family="on-own", info=None):
     """as setup_internal does: REPEX_state → initiate_ensembles → load_paths_from_disk (paths stored in the
     library's format) → load_paths (weights from the real calc_cv_vector) → first W picks.
     Returns (stage, error kind | None, state, orders, weight rows of the plus paths)."""
@@ -520,6 +623,8 @@ def initialise(cfg, family="on-own"):
     stage = "REPEX_state"
     st = None
     orders, rows = None, None
+    if info is None:
+        info = {}
     try:
         st = REPEX_state(cfg, minus=True)
         stage = "initiate_ensembles"
@@ -532,6 +637,12 @@ def initialise(cfg, family="on-own"):
         paths = load_paths_from_disk(cfg)
         st.load_paths(paths)
         rows = [tuple(float(x) for x in p.weights) for p in paths[1:]]
+        # what the real state holds right after load_paths (before any pick): the W matrix, the weights recorded
+        # per path in traj_data, the cap handed to the workers (md_items['cap'] = state.cap in setup_internal)
+        info["matrix"] = [[float(x) for x in r] for r in st.state.tolist()]
+        info["traj_data_rows"] = [tuple(float(x) for x in st.traj_data[p.path_number]["weights"]) for p in paths[1:]]
+        info["cap"] = st.cap
+        info["have"] = True
         stage = "first-picks"
         st.engine_occ = engine_occ_of(cfg)
         err = first_picks(st, cfg)
@@ -636,11 +747,40 @@ def restart_roundtrip(real, st):
             return "ok", b, a, f"{stage}:wrong-number-of-ensembles"
         if [int(x) for x in st2.live_paths()] != [int(x) for x in again["current"]["active"]]:
             return "ok", b, a, f"{stage}:active-paths-not-restored"
+        mbad = md_items_violations(again, md_items, st2)
+        if mbad:
+            return "ok", b, a, f"md_items:{mbad[0]}"
         stage = "first-picks"
         err = first_picks(st2, again)
         return "ok", b, a, (f"{stage}:{err}" if err else None)
     except Exception as e:  # noqa: BLE001
         return "ok", b, a, f"{stage}:{err_kind(e)}"
+
+
+def md_items_violations(cfg, md_items, st):
+    """what the real setup_internal hands on: md_items (interfaces, moves, cap of the configuration) and a state
+    whose W matrix holds, for every stored path it loaded, the demanded weight vector under the configured cap"""
+    sim = cfg["simulation"]
+    bad = []
+    try:
+        if not same_cap(md_items.get("cap", "missing"), configured_cap(cfg)):
+            bad.append(f"cap is {md_items.get('cap', 'missing')!r}, configured interface_cap is {configured_cap(cfg)!r}")
+        if not same_cap(st.cap, configured_cap(cfg)):
+            bad.append(f"state.cap is {st.cap!r}, configured interface_cap is {configured_cap(cfg)!r}")
+        if list(md_items.get("interfaces", ())) != list(sim["interfaces"]):
+            bad.append(f"interfaces are {md_items.get('interfaces')!r}")
+        if list(md_items.get("mc_moves", ())) != list(sim["shooting_moves"]):
+            bad.append(f"mc_moves are {md_items.get('mc_moves')!r}")
+        n = len(sim["interfaces"])
+        orders = [None] + [[float(pp.order[0]) for pp in st._trajs[i + 1].phasepoints] for i in range(n - 1)]
+        sb = state_weight_violations(cfg, orders, st.state.tolist())
+        if sb:
+            bad.append("weights: " + sb[0][1])
+    except Exception as e:  # noqa: BLE001
+        if type(e).__name__ == "Timeout":
+            raise
+        bad.append("unreadable: " + err_kind(e))
+    return bad
 
 
 RESTART_VARIANTS = {
@@ -870,7 +1010,8 @@ def judge(ctx, real, c, code_setup, cfg, do_init, do_restart, families=(), wcase
             st = None
             err = None
             for fam in fams:
-                stage, ferr, fst, orders, rows = initialise(copy.deepcopy(cfg), fam)
+                info = {}
+                stage, ferr, fst, orders, rows = initialise(copy.deepcopy(cfg), fam, info)
                 ctx.hit(f"init[{fam}]:{'invalid-' if bad else ''}{stage}{':' + ferr if ferr else ''}")
                 if fam == "on-own":
                     st, err = fst, ferr
@@ -930,6 +1071,25 @@ def judge(ctx, real, c, code_setup, cfg, do_init, do_restart, families=(), wcase
                     elif wcases is not None:
                         for i, w in enumerate(rows):
                             wcases.append((obj, fam, i, cv_line(cfg, orders[i + 1]), w))
+                if info.get("have"):
+                    # the real state after the real initialisation: W matrix, per-path record, cap
+                    sbad = state_weight_violations(cfg, orders, info["matrix"])
+                    if not sbad and rows is not None and info["traj_data_rows"] != rows:
+                        sbad = [(-1, f"traj_data weights {info['traj_data_rows']} ≠ path weights {rows}")]
+                    if sbad:
+                        fail_once(ctx, "C18:initial-weights:state-matrix",
+                                  f"state after load_paths (family {fam}): {sbad[0][1]}",
+                                  dict(rep, matrix=info["matrix"], violations=[list(x) for x in sbad[:5]]))
+                    if not same_cap(info["cap"], configured_cap(cfg)):
+                        fail_once(ctx, "C18:state-cap-not-the-configured-cap",
+                                  f"state.cap (→ md_items['cap']) is {info['cap']!r}, the accepted configuration says "
+                                  f"interface_cap = {configured_cap(cfg)!r}",
+                                  dict(rep, state_cap=repr(info["cap"]), configured=repr(configured_cap(cfg))))
+                    else:
+                        ctx.hit("state-cap:" + ("absent" if configured_cap(cfg) is None else
+                                                "zero" if configured_cap(cfg) == 0 else
+                                                "on-interface" if configured_cap(cfg) in cfg["simulation"]["interfaces"]
+                                                else "between"))
             if err is None and do_restart and st is not None:
                 r, before, again, ierr = restart_roundtrip(real, st)
                 ctx.hit(f"restart-roundtrip:{r}")
@@ -938,6 +1098,10 @@ def judge(ctx, real, c, code_setup, cfg, do_init, do_restart, families=(), wcase
                     fail_once(ctx, "C18:restart-not-a-fixed-point",
                               f"restart.toml read back → {r}; differing sections {sorted(diff)}",
                               {"case": obj, "result": r, "differing": sorted(diff)})
+                elif ierr is not None and ierr.startswith("md_items:"):
+                    fail_once(ctx, "C18:restart-route:md_items-not-the-configuration",
+                              "setup_internal on the restart file written for an accepted configuration hands on "
+                              + ierr, {"case": obj, "error": ierr, "route": "restart"})
                 elif ierr is not None:
                     fail_once(ctx, "C18:restart-route:accepted-valid-but-init-fails:" + ierr.split(":")[0],
                               f"the restart file written for an accepted configuration is accepted but {ierr}",
